@@ -32,6 +32,25 @@ use crate::util::*;
 pub const S_ASSET: usize = crate::fungible::DECLARED; // VaultStorageKey::AssetAddress (instance)
 pub const S_OFFSET: usize = crate::fungible::DECLARED + 1; // VaultStorageKey::VirtualDecimalsOffset (instance)
 pub const DECLARED: usize = crate::fungible::DECLARED + 2;
+/// slot of the REVERSE share allowance (operator -> owner) in the withdraw / redeem harnesses: a library that
+/// consults the allowance in the wrong direction must fail a clause instead of silently finding nothing
+pub const S_ALLOW_REV: usize = DECLARED;
+
+pub fn declare_reverse_allowance(owner: &soroban_sdk::Address, operator: &soroban_sdk::Address) -> model::Slot {
+    use stellar_tokens::fungible::{AllowanceData, AllowanceKey, FungibleStorageKey};
+    let present: bool = kani::any();
+    let amount: i128 = kani::any();
+    kani::assume(amount >= 0);
+    // owner == operator: the reverse key IS the forward key (already declared); plug the slot with an untouchable key
+    let (o, sp) = if owner != operator {
+        (operator.clone(), owner.clone())
+    } else {
+        (soroban_sdk::Address::from_id(9_999), soroban_sdk::Address::from_id(9_998))
+    };
+    let key = FungibleStorageKey::Allowance(AllowanceKey { owner: o, spender: sp });
+    model::declare_val(S_ALLOW_REV, 1, &key, present && owner != operator, &AllowanceData { amount, live_until_ledger: kani::any() }, kani::any());
+    model::slot(S_ALLOW_REV)
+}
 
 // ------------------------------------------------------------------------------------ the stub
 #[derive(Clone, Copy)]
@@ -343,6 +362,7 @@ pub fn withdraw() {
     let sby = addr_below(NA as u32);
     kani::assume(sby != owner);
     let al = declare_allowance(&owner, &operator);
+    let pre_rev = declare_reverse_allowance(&owner, &operator);
     let pre_al_slot = model::slot(S_ALLOW);
     let assets = amount();
     let a_recv0 = tok_balance(&receiver);
@@ -358,7 +378,8 @@ pub fn withdraw() {
     witness!(assets > 0 && shares > 0 && operator == owner && receiver != owner, "withdraw.own_shares_to_someone_else");
     witness!(assets > 1 && shares > 1 && shares != assets, "withdraw.skewed_rate");
     witness!(operator != owner && shares > 0 && allowance_worth_now() > 0, "withdraw.partial_allowance_spend");
-    end_checks(DECLARED);
+    prop!(model::slots_equal(&model::slot(S_ALLOW_REV), &pre_rev), "C02.vault.withdraw.reverse_allowance_untouched");
+    end_checks(DECLARED + 1);
 }
 
 #[kani::proof]
@@ -377,6 +398,7 @@ pub fn redeem() {
     let sby = addr_below(NA as u32);
     kani::assume(sby != owner);
     let al = declare_allowance(&owner, &operator);
+    let pre_rev = declare_reverse_allowance(&owner, &operator);
     let pre_al_slot = model::slot(S_ALLOW);
     let shares = amount();
     let a_recv0 = tok_balance(&receiver);
@@ -394,7 +416,8 @@ pub fn redeem() {
     witness!(assets > 1 && shares > 1 && shares != assets, "redeem.skewed_rate");
     witness!(shares > 0 && assets == 0, "redeem.rounds_to_zero_assets");
     witness!(shares > 0 && shares == bal_pre(&p.sh, &owner), "redeem.everything");
-    end_checks(DECLARED);
+    prop!(model::slots_equal(&model::slot(S_ALLOW_REV), &pre_rev), "C02.vault.redeem.reverse_allowance_untouched");
+    end_checks(DECLARED + 1);
 }
 
 // ------------------------------------------------------------------------------------ max_* limits
